@@ -666,6 +666,59 @@ def run(ctx: Any, prog: Program) -> None:
                     ok, why = fresh_expr(fn, owner, ast.Name(id=n.target.id, ctx=ast.Load()))
                     ctx.check('C05.G2', ok, mt, n, f'`{U(n)}` mutates `{n.target.id}` in place when it is mutable: {why}', func=qual,
                               text=U(n)[:60])
+    # ---- G3 (base classes): a method shared by the mutable and the frozen class hands back `self` only when self is frozen -------------------
+    # `clamped()`, `norm()` ... return a value "equal to but independent of" their source.  In VecBase / AngleBase / MatrixBase a `return self`
+    # is therefore guarded by a test of the *type* (directly, or through a flag that starts as such a test and is only ever cleared): a test on
+    # the values ("nothing changed") returns a mutable Vec itself, and an in-place change of the result changes the source.
+    n_rs = 0
+    for bc in ('VecBase', 'AngleBase', 'MatrixBase'):
+        for mname, fn in mt.methods(bc).items():
+            me_ = fn.args.args[0].arg if fn.args.args else 'self'
+            fresh_self = any(isinstance(a, ast.Assign) and any(isinstance(t, ast.Name) and t.id == me_ for t in a.targets) for a in walk_no_nested(fn))
+            if fresh_self:
+                continue            # `self = cls.__new__(cls)`: a classmethod building a new object
+            for r in [x for x in walk_no_nested(fn) if isinstance(x, ast.Return) and isinstance(x.value, ast.Name) and x.value.id == me_]:
+                n_rs += 1
+                guards_ = [a for a in _anc(mt, r, fn) if isinstance(a, ast.If)]
+                def _type_test(t: ast.AST, depth: int = 0) -> bool:
+                    if isinstance(t, ast.Compare) and len(t.ops) == 1 and isinstance(t.ops[0], (ast.Is, ast.Eq)) and isinstance(t.left, ast.Call) and dotted(t.left.func) == 'type' and 'Frozen' in (dotted(t.comparators[0]) or ''):
+                        return True
+                    if isinstance(t, ast.Call) and dotted(t.func) == 'isinstance' and len(t.args) == 2 and 'Frozen' in U(t.args[1]):
+                        return True
+                    if isinstance(t, ast.Name) and depth < 2:
+                        defs_ = [a.value for a in walk_no_nested(fn) if isinstance(a, ast.Assign) and any(isinstance(x, ast.Name) and x.id == t.id for x in a.targets)]
+                        inits = [d for d in defs_ if not (isinstance(d, ast.Constant) and d.value is False)]
+                        return len(inits) == 1 and _type_test(inits[0], depth + 1)
+                    return False
+                ok_ = any(_type_test(g.test) and any(r is y for b in g.body for y in ast.walk(b)) for g in guards_)
+                ctx.check('C05.G3', ok_, mt, r, f'{bc}.{mname} returns self under `{" and ".join(U(g.test)[:40] for g in guards_) or "no condition"}`, which does not establish that self is frozen: a mutable '
+                          f'{bc[:-4]} gets itself back instead of a new object, so an in-place change of the result changes the source', func=f'{bc}.{mname}', text=f'{bc}.{mname}: `return self` only for frozen objects')
+    ctx.shape('C05.G3', n_rs >= 1, mt, mt.tree, 'no `return self` found in the base classes (VecBase.clamped confirmed by hand)', text='base-class return self')
+    # ---- G5 (parsing): the text form is read back with float() and nothing else -------------------------------------------------------------
+    # "the str form parses back to within 5e-7 per component": str() writes six places, float() reads them back exactly.  parse_vec_str
+    # therefore hands each piece of the text to float() - directly, or through a helper every return of which is float(<its argument>) -
+    # and does no arithmetic or rounding on the result (snapping 0.000004 to 0 is off by eight times the allowed error).
+    pvs = mt.func('parse_vec_str')
+    conv_rets = [r for r in walk_no_nested(pvs) if isinstance(r, ast.Return) and isinstance(r.value, ast.Tuple) and len(r.value.elts) == 3 and all(isinstance(e, ast.Call) for e in r.value.elts)]
+    ctx.shape('C05.G5', len(conv_rets) >= 1, mt, pvs, 'the return of parse_vec_str that converts the three text pieces was not found', func='parse_vec_str', text='components parsed with float()')
+    for r in conv_rets:
+        for e in r.value.elts:
+            fnm = dotted(e.func) or ''
+            if fnm == 'float':
+                ctx.check('C05.G5', len(e.args) == 1 and isinstance(e.args[0], ast.Name), mt, e, 'float(<piece of the text>)', func='parse_vec_str', text=f'component `{U(e)[:30]}` parsed with float()')
+                continue
+            try:
+                hf = mt.func(fnm)
+            except AnalysisError:
+                ctx.shape('C05.G5', False, mt, e, f'parse_vec_str converts a component with `{U(e)[:40]}`, which is not float() nor a module-level helper', func='parse_vec_str', text=f'component `{U(e)[:30]}` parsed with float()')
+                continue
+            hp = hf.args.args[0].arg if hf.args.args else ''
+            exact = {t.id for a in walk_no_nested(hf) if isinstance(a, ast.Assign) and isinstance(a.value, ast.Call) and dotted(a.value.func) == 'float' and len(a.value.args) == 1 and dotted(a.value.args[0]) == hp
+                     for t in a.targets if isinstance(t, ast.Name)}
+            bad_r = [x for x in walk_no_nested(hf) if isinstance(x, ast.Return) and not ((isinstance(x.value, ast.Call) and dotted(x.value.func) == 'float' and len(x.value.args) == 1 and dotted(x.value.args[0]) == hp)
+                                                                                     or (isinstance(x.value, ast.Name) and x.value.id in exact))]
+            ctx.check('C05.G5', not bad_r, mt, bad_r[0] if bad_r else e, f'parse_vec_str converts components through {fnm}(), which returns `{U(bad_r[0].value)[:40] if bad_r else ""}` on some path instead of float() of the text: '
+                      'a value the text spells exactly (0.000004) is read back as another number, further away than the 5e-7 the text form guarantees', func=fnm, text=f'component `{U(e)[:30]}` parsed with float()')
     # ---- G2 (iii): operator dispatch leaves frozen operands alone; `@` leaves both operands alone -----------------
     form, vform = extract_forms(prog)
     disp = Dispatcher(mt, form, vform)
@@ -1041,6 +1094,8 @@ def check_format_float(ctx: Any, mod: Any, ff: Any, prog: Any) -> None:
 
 
 MUTANTS = [
+    {'id': 'parse_vec_str_rounds_components', 'file': 'math.py', 'find': "            float(str_x),\n            float(str_y),\n            float(str_z),", 'replace': "            round(float(str_x), 4),\n            round(float(str_y), 4),\n            round(float(str_z), 4),", 'expect': 'C05.G5', 'refuse_ok': True, 'note': 'round 13'},
+    {'id': 'clamped_returns_self_when_unchanged', 'file': 'math.py', 'find': "        if return_self:  # Unchanged FrozenVec, return it.", 'replace': "        if x == self._x and y == self._y and z == self._z:", 'expect': 'C05.G3', 'note': 'round 13'},
     {'id': 'from_basis_rescales_arguments', 'file': 'math.py', 'find': "        mat = cls.__new__(cls)\n        mat._aa, mat._ab, mat._ac = x.norm()", 'replace': "        for axis in (x, y, z):\n            axis._x = axis._x + 0\n        mat = cls.__new__(cls)\n        mat._aa, mat._ab, mat._ac = x.norm()", 'expect': 'C05.G2', 'note': 'round 12'},
     {'id': 'from_str_returns_its_argument', 'file': 'math.py', 'find': "        pitch, yaw, roll = Py_parse_vec_str(val, pitch, yaw, roll)\n        return cls(pitch, yaw, roll)", 'replace': "        if isinstance(val, cls):\n            return val\n        pitch, yaw, roll = Py_parse_vec_str(val, pitch, yaw, roll)\n        return cls(pitch, yaw, roll)", 'expect': 'C05.G3'},
     {'id': 'with_axes_single_modulo_setattr', 'file': 'math.py', 'find': "    def join(self, delim: str = ', ') -> str:\n        \"\"\"Return a string with all numbers joined by the passed delimiter.\n\n        This strips off the .0 if no decimal portion exists.\n        \"\"\"\n        return f'{format_float(self._pitch)}", 'replace': "    def _set_axis(self, slot: str, val: float) -> None:\n        value = _coerce_float(val)\n        if not 0.0 <= value < 360.0:\n            value %= 360.0\n        setattr(self, slot, value)\n\n    def join(self, delim: str = ', ') -> str:\n        \"\"\"Return a string with all numbers joined by the passed delimiter.\n\n        This strips off the .0 if no decimal portion exists.\n        \"\"\"\n        return f'{format_float(self._pitch)}", 'expect': 'C05.G1', 'refuse_ok': True},
